@@ -304,6 +304,16 @@ func c18(r *ev.Result, tier string) {
 			c18Case{Lines: []string{" longdesc " + strings.Repeat("d", n), " zlast after"}, Class: "long-doc-line"},
 		)
 	}
+	/* Listings of every size from 1 to 140 rows, a quote-breaker with a
+	hidden command in every row (whatever an implementation does block-wise
+	or with several workers, the last rows are rows like any other). */
+	for n := 1; n <= 140; n++ {
+		c := c18Case{Class: "row-count"}
+		for k := 0; k < n; k++ {
+			c.Lines = append(c.Lines, fmt.Sprintf(" f%03d it's row %d'; touch CANARY; echo '", k, k))
+		}
+		cases = append(cases, c)
+	}
 	r.Set("payloads", len(cases))
 
 	base := ev.Scratch("c18-")
